@@ -257,15 +257,29 @@ func (g *Gen) findGlobal(pkg *types.Package, name string) *ssa.Global {
 		p = g.importedPkg(pkg, name[:i])
 		name = name[i+1:]
 	}
-	if p == nil {
-		return nil
+	if p != nil {
+		if sp := g.prog.Package(p); sp != nil {
+			if gl, ok := sp.Members[name].(*ssa.Global); ok {
+				return gl
+			}
+		}
 	}
-	sp := g.prog.Package(p)
-	if sp == nil {
-		return nil
+	// contracts of dependencies (extern blocks) are shared: look the name up in every module package
+	var found *ssa.Global
+	for _, path := range sortedKeys(g.allTypes) {
+		if !g.inModule(path) {
+			continue
+		}
+		if sp := g.prog.Package(g.allTypes[path]); sp != nil {
+			if gl, ok := sp.Members[name].(*ssa.Global); ok {
+				if found != nil {
+					return nil // ambiguous
+				}
+				found = gl
+			}
+		}
 	}
-	gl, _ := sp.Members[name].(*ssa.Global)
-	return gl
+	return found
 }
 
 func (g *Gen) needConcatAxiom(e *Enc) {
@@ -327,7 +341,7 @@ func (g *Gen) newFuncGen(fn *ssa.Function, ct *Contract, props []string) *FuncGe
 	fg := &FuncGen{g: g, enc: newEnc(bv), fn: fn, ct: ct, vals: map[ssa.Value]Val{}, comps: map[string]*Comp{},
 		ghostSort: map[string]string{}, ghostInits: map[string]string{}, paramVals: map[string]Val{}, ordinals: map[string]int{},
 		noteSeen: map[string]bool{}, iterCells: map[*ssa.Range]string{}, callCount: map[string]int{}, nilChecked: map[string]bool{},
-		constLen: map[string]int{}, blockOrder: map[*ssa.BasicBlock]int{}, invAssumed: map[string]bool{}, invTouched: map[string]touched{}, dirty: map[string]bool{}, lastAssert: map[string]int{}}
+		constLen: map[string]int{}, blockOrder: map[*ssa.BasicBlock]int{}, invAssumed: map[string]bool{}, invTouched: map[string]touched{}, dirty: map[string]bool{}, lastAssert: map[string]int{}, known: map[string]touched{}, depsCache: map[string][]string{}, ownMods: map[string][]string{}}
 	fg.props = props
 	return fg
 }
